@@ -22,6 +22,9 @@ type WorkloadSnap struct {
 	Name  string `json:"name"` // workload name without the random suffix (app_entry)
 	CPU   int64  `json:"cpu"`  // cpu request in 1/100 core
 	Mem   int64  `json:"mem"`  // memory request in bytes
+	// what the record tells the engine (EngineParams): cpu in 1/100 core, memory in bytes
+	EngCPU int64 `json:"eng_cpu"`
+	EngMem int64 `json:"eng_mem"`
 }
 
 // NodeSnap is a node record plus what the resource plugin holds for it.
@@ -147,7 +150,8 @@ func (w *World) Snapshot() *Snapshot {
 			c, m := cpumemOf(wl.Resources)
 			ns.SumCPU += c
 			ns.SumMem += m
-			s.Workloads = append(s.Workloads, WorkloadSnap{ID: wl.ID, Canon: w.Canon(wl.ID), Node: wl.Nodename, Pod: wl.Podname, Name: trimSuffixName(wl.Name), CPU: c, Mem: m})
+			ec, em := cpumemOf(wl.EngineParams)
+			s.Workloads = append(s.Workloads, WorkloadSnap{ID: wl.ID, Canon: w.Canon(wl.ID), Node: wl.Nodename, Pod: wl.Podname, Name: trimSuffixName(wl.Name), CPU: c, Mem: m, EngCPU: ec, EngMem: em})
 		}
 		capa, usage, diffs, err := w.RawRmgr.GetNodeResourceInfo(ctx, n.Name, wls, false)
 		if err == nil {
@@ -174,7 +178,8 @@ func (w *World) Snapshot() *Snapshot {
 				if !have[id] {
 					if wl, err := w.RawStore.GetWorkload(ctx, id); err == nil {
 						c, m := cpumemOf(wl.Resources)
-						s.Workloads = append(s.Workloads, WorkloadSnap{ID: wl.ID, Canon: w.Canon(wl.ID), Node: wl.Nodename, Pod: wl.Podname, Name: trimSuffixName(wl.Name), CPU: c, Mem: m})
+						ec, em := cpumemOf(wl.EngineParams)
+						s.Workloads = append(s.Workloads, WorkloadSnap{ID: wl.ID, Canon: w.Canon(wl.ID), Node: wl.Nodename, Pod: wl.Podname, Name: trimSuffixName(wl.Name), CPU: c, Mem: m, EngCPU: ec, EngMem: em})
 					} else {
 						s.Workloads = append(s.Workloads, WorkloadSnap{ID: id, Canon: w.Canon(id), Node: "?"})
 					}
